@@ -386,7 +386,7 @@ def rejected_reconfiguration(ctx, lw, rng, obj, kind, params, trace):
     for _ in range(int(rng.integers(1, 4))):
         opts = ["input_len", "input_type", "circuit_type", "edit_out_of_range", "edit_bad_value", "param_out_of_bounds"]
         if kind == "Sampler":
-            opts += ["source_value"] * 3 + ["source_type", "backend_name", "detector_type", "detector_value",
+            opts += ["source_value"] * 6 + ["source_type", "backend_name", "detector_type", "detector_value",
                                             "n_inputs_bad_args"]
         else:
             opts += ["post_select_type", "ps_rule_bad", "counting_type"]
@@ -440,6 +440,9 @@ def rejected_reconfiguration(ctx, lw, rng, obj, kind, params, trace):
                 if which == "purity" and rng.random() < 0.4:
                     v = float(rng.choice([0.5, 0.3, 0.0, 0.5 - 1e-12]))
                 trace[-1].append([which, repr(v)])
+                if which != "probability_threshold" and rng.random() < 0.6:
+                    # (the setting is first given an ordinary non-ideal value, so that residue of the refused request shows)
+                    setattr(obj.source, which, float(rng.uniform(0.6, 0.95)))
                 setattr(obj.source, which, v)
             elif what == "source_type":
                 obj.source = rng.choice([0.9, "source", 1]) if rng.random() < 0.7 else emu.Detector()
